@@ -17,7 +17,9 @@ R == INSTANCE Req
 Modes == {"fn", "fn-concrete", "mod", "trait-self", "di-static", "trait-ref-at", "di-dyn-at", "trait-self-at", "di-static-at"}
 Rets == {"unit", "owned", "borrow-deps", "borrow-arg", "generic"}
 AsyncTrait(m) == m \in {"trait-ref-at", "di-dyn-at", "trait-self-at", "di-static-at"}
-Inputs == { i \in [mode : Modes, ret : Rets, nosend : BOOLEAN] :
+\* atargs: the async_trait attribute is written with arguments, `#[async_trait(?Send)]` (only in the async_trait modes)
+Inputs == { i \in [mode : Modes, ret : Rets, nosend : BOOLEAN, atargs : BOOLEAN] :
+            /\ (i.atargs => AsyncTrait(i.mode))
             /\ (AsyncTrait(i.mode) => ~i.nosend /\ i.ret \in {"unit", "owned", "borrow-arg"})
             /\ (i.ret = "borrow-deps" => i.mode \in {"fn", "fn-concrete", "mod"})
             /\ (i.ret = "generic" => i.mode \in {"fn", "fn-concrete", "mod", "trait-self"}) }
@@ -32,7 +34,7 @@ MakeTraitFnSig == /\ pc = "sig"
                   /\ pc' = "done" /\ UNCHANGED i
 Spec == Init /\ [][MakeTraitFnSig]_vars
 PredObs(x) == IF AsyncTrait(x.mode)
-              THEN [expanded |-> TRUE, base_compiles |-> TRUE, w_output |-> TRUE, w_send |-> TRUE, w_nonsend_body |-> FALSE, kept_async |-> TRUE,
+              THEN [expanded |-> TRUE, base_compiles |-> TRUE, w_output |-> TRUE, w_send |-> ~x.atargs, w_nonsend_body |-> x.atargs, kept_async |-> TRUE,
                     futout |-> "", futsend |-> FALSE, attr_on_trait |-> TRUE, attr_on_impls |-> TRUE]
               ELSE [expanded |-> TRUE, base_compiles |-> TRUE, w_output |-> TRUE, w_send |-> ~x.nosend, w_nonsend_body |-> x.nosend, kept_async |-> FALSE,
                     futout |-> RetText(x.ret), futsend |-> ~x.nosend, attr_on_trait |-> FALSE, attr_on_impls |-> FALSE]
